@@ -431,6 +431,50 @@ def check_financial_fn(ctx) -> None:
                       f'add-on NPV rate `{norm(s.args[0])}` is not FixedInternalRate[%] / 100')
 
 
+def check_revenue_after_energy_adjustments(ctx) -> None:
+    """K8: revenue, cash flow, NPV, IRR and payback are computed from the yearly energy series.  Every Calculate of another model part
+    that Economics.Calculate invokes and that rewrites one of those series (S-DAC-GT deducts its consumption, add-ons) must run
+    before the first revenue computation, otherwise the reported revenue is not the reported energy sold times the price."""
+    from gxstat.callgraph import get_callgraph
+    from rules.c01 import _writes_of, attr_of
+    repo = ctx.repo
+    cg = get_callgraph(repo)
+    for cn, suffix in (('Economics', 'geophires_x/Economics.py'), ('SBTEconomics', 'geophires_x/SBTEconomics.py')):
+        g = repo.method(cn, 'Calculate', suffix)
+        top = list(g.node.body)
+        rev_idx = [i for i, st in enumerate(top) if any(isinstance(c, ast.Call) and (dotted_name(c.func) or '').split('.')[-1] == 'CalculateRevenue'
+                                                       for c in ast.walk(st))]
+        ctx.require(rev_idx, f'{cn}.Calculate: no top-level statement calls CalculateRevenue (idiom changed)')
+        first = min(rev_idx)
+        reads = set()
+        for i in rev_idx:
+            for c in ast.walk(top[i]):
+                if isinstance(c, ast.Call) and (dotted_name(c.func) or '').split('.')[-1] == 'CalculateRevenue':
+                    for a in c.args:
+                        for x in ast.walk(a):
+                            if isinstance(x, ast.Attribute) and x.attr == 'value':
+                                reads.add(attr_of(norm(x)))
+        ctx.floor('K8', len(reads), 4, f'{cn}: series the revenue computation reads')
+        late = []
+        for st in top[first:]:
+            for x in ast.walk(st):
+                if isinstance(x, ast.Call):
+                    for t in cg.call_targets(x, g):
+                        if t.name == 'Calculate' and t.cls is not None and t is not g:
+                            hit = sorted(a for a in _writes_of(t) if a in reads)
+                            if hit:
+                                late.append((x, t, hit))
+        key = f'{cn}.Calculate/revenue-after-energy-adjustments'
+        if late:
+            x, t, hit = late[0]
+            ctx.bad('K8', key, f'{g.module.rel}:{x.lineno}',
+                    f'`{norm(x)[:60]}` runs after the first revenue computation (line {top[first].lineno}) although {t.qualname} rewrites {hit[:3]}: '
+                    f'revenue, cash flow, NPV, IRR and payback were computed from the series before the adjustment, the report shows the '
+                    f'adjusted series')
+        else:
+            ctx.ok('K8', key, f'{g.module.rel}:{top[first].lineno}', f'no later Calculate call rewrites {sorted(reads)[:4]}...')
+
+
 def run(ctx) -> None:
     ctx.rule('K1', 'CalculateRevenue: revenue[i] = Energy[i-C] x Price[i-C] / 1e6 for i in exactly [C, L+C) (equal subscripts, MUSD by '
                    'unit typing), cumulative recurrence cum[i] = cum[i-1] + rev[i]')
@@ -447,6 +491,8 @@ def run(ctx) -> None:
     repo = ctx.repo
     check_calculate(ctx, repo.method('Economics', 'Calculate', 'geophires_x/Economics.py'), 'Economics')
     check_calculate(ctx, repo.method('SBTEconomics', 'Calculate', 'geophires_x/SBTEconomics.py'), 'SBTEconomics')
+    ctx.rule('K8', 'every invoked Calculate that rewrites a series the revenue computation reads runs before the first revenue computation')
+    check_revenue_after_energy_adjustments(ctx)
     ctx.rule('K7', "the rate of NPV/VIR is the synchronised one: conversions store a number in the target's own unit, no stale copies (shared)")
     from rules.rate_sync import check_rate_sync
     _n = check_rate_sync(ctx, 'K7', only_functions={'sync_interest_rate'})
